@@ -69,9 +69,34 @@ Proof.
     + intros ver Hin. apply in_app_or in Hin. destruct Hin as [Hin|[<-|[]]]; [auto|simpl; auto].
 Qed.
 
+Lemma vrefuse_wf st m kw : vwf st -> vwf (fst (vrefuse st m kw)).
+Proof.
+  intros [Hr Hv]. unfold vrefuse. destruct (row_of m (m_tbl st)) as [r|] eqn:Er; [|split; assumption].
+  destruct (Hr m r Er) as [Hrv Hrf].
+  destruct (validate kw); simpl; [|split; assumption].
+  split; simpl; [exact Hr|].
+  intros ver Hin. apply in_app_or in Hin. destruct Hin as [Hin|[<-|[]]]; [auto|simpl; auto].
+Qed.
+Lemma vrefuse_not_done st m kw st' : vrefuse st m kw <> (st', VDone).
+Proof.
+  unfold vrefuse. destruct (row_of m (m_tbl st)); [|discriminate].
+  destruct (negb (validate kw)); discriminate.
+Qed.
+Lemma vrefuse_invalid st m kw st' : vrefuse st m kw = (st', VExn XInvalid) -> st' = st.
+Proof.
+  unfold vrefuse. destruct (row_of m (m_tbl st)); [|discriminate].
+  destruct (negb (validate kw)); [intros H; inversion H; reflexivity|discriminate].
+Qed.
+Lemma vrefuse_cases st m kw :
+  snd (vrefuse st m kw) = VExn XTypeError \/ fst (vrefuse st m kw) = st.
+Proof.
+  unfold vrefuse. destruct (row_of m (m_tbl st)); [|right; reflexivity].
+  destruct (negb (validate kw)); [right|left]; reflexivity.
+Qed.
+
 Lemma vstep_wf st o : vwf st -> vwf (fst (vstep st o)).
 Proof.
-  intros Hw. destruct o as [kw0|m c v|m kw0|vid]; unfold vstep.
+  intros Hw. destruct o as [kw0|m c v|m kw0|m kw0|vid]; unfold vstep.
   - destruct (fill_defaults all_cols (mk_kw kw0)) as [kw2|] eqn:Ef; [|exact Hw].
     destruct (validate kw2) eqn:Ev; simpl; [|exact Hw].
     destruct (a_conflict None kw2 (m_tbl st)); simpl; [exact Hw|].
@@ -83,6 +108,7 @@ Proof.
       * destruct (fill_defaults_has _ _ Ef) as [Ha [Hb Hc]]. apply sort_cols_full_of; assumption.
   - apply vupdate_wf; auto.
   - apply vupdate_wf; auto.
+  - apply vrefuse_wf; auto.
   - destruct (find_version vid (v_tbl st)) as [ver|]; [apply vupdate_wf; auto|exact Hw].
 Qed.
 
@@ -122,7 +148,7 @@ Lemma vstep_inv st o :
   db_refused {| w_pre := st; w_op := o; w_out := snd (vstep st o); w_post := fst (vstep st o) |} = false ->
   vinv (fst (vstep st o)).
 Proof.
-  intros Hw Hi Ho. destruct o as [kw0|m c v|m kw0|vid]; unfold db_refused in Ho; cbn [w_op w_out] in Ho; unfold vstep in *.
+  intros Hw Hi Ho. destruct o as [kw0|m c v|m kw0|m kw0|vid]; unfold db_refused in Ho; cbn [w_op w_out] in Ho; unfold vstep in *.
   - destruct (fill_defaults all_cols (mk_kw kw0)) as [kw2|] eqn:Ef; [|exact Hi].
     destruct (validate kw2) eqn:Ev; simpl; [|exact Hi].
     destruct (a_conflict None kw2 (m_tbl st)); simpl; [exact Hi|].
@@ -147,6 +173,7 @@ Proof.
         unfold versions_of in H1. rewrite H1. unfold hist_of in H2. rewrite hist_get_push_same, H2. reflexivity.
   - apply vupdate_inv; try assumption. intros Hx. rewrite Hx in Ho. discriminate.
   - apply vupdate_inv; try assumption. intros Hx. rewrite Hx in Ho. discriminate.
+  - destruct (vrefuse_cases st m (mk_kw kw0)) as [Hx|Hx]; [rewrite Hx in Ho; discriminate|rewrite Hx; exact Hi].
   - destruct (find_version vid (v_tbl st)) as [ver|] eqn:Ef; [|exact Hi].
     apply vupdate_inv; try assumption. intros Hx. rewrite Hx in Ho. discriminate.
 Qed.
@@ -199,9 +226,10 @@ Lemma one_version st o st' m :
 Proof.
   intros Hs Ht.
   assert (Hu : exists kw, vupdate st m kw = (st', VDone)).
-  { destruct o as [kw0|m0 c v|m0 kw0|vid]; simpl in *; try discriminate.
+  { destruct o as [kw0|m0 c v|m0 kw0|m0 kw0|vid]; simpl in *; try discriminate.
     - inversion Ht; subst. eauto.
     - inversion Ht; subst. eauto.
+    - exfalso. exact (vrefuse_not_done _ _ _ _ Hs).
     - destruct (find_version vid (v_tbl st)) as [ver|]; [|discriminate]. inversion Ht; subst. eauto. }
   destruct Hu as [kw Hu]. destruct (vupdate_done _ _ _ _ Hu) as [r [Hr [Hk [Ht' [_ [Hv [_ _]]]]]]].
   exists r. split; [exact Hr|]. split; [|split].
@@ -260,12 +288,13 @@ Lemma hist_invalid_noop ops w :
   In w (vrun vinit ops) -> w_out w = VExn XInvalid -> w_post w = w_pre w.
 Proof.
   intros Hin Ho. pose proof (vrun_is_step ops vinit w Hin) as Hs. unfold is_vstep in Hs. rewrite Ho in Hs.
-  symmetry in Hs. destruct (w_op w) as [kw0|m c v|m kw0|vid]; unfold vstep in Hs.
+  symmetry in Hs. destruct (w_op w) as [kw0|m c v|m kw0|m kw0|vid]; unfold vstep in Hs.
   - destruct (fill_defaults all_cols (mk_kw kw0)) as [kw2|]; [|discriminate].
     destruct (negb (validate kw2)); [inversion Hs; reflexivity|].
     destruct (a_conflict None kw2 _); discriminate.
   - exact (vupdate_invalid _ _ _ _ Hs).
   - exact (vupdate_invalid _ _ _ _ Hs).
+  - exact (vrefuse_invalid _ _ _ _ Hs).
   - destruct (find_version vid _) as [ver|]; [exact (vupdate_invalid _ _ _ _ Hs)|discriminate].
 Qed.
 
@@ -289,3 +318,12 @@ Lemma refused_witness :
 Proof. eexists. split; [right; right; left; reflexivity|]. repeat split. Qed.
 (* the fixed one (6e91999), kept as a regression *)
 Definition ops_invalid : list vop := [VCreate [(CA, VInt 1)]; VAssign 1 CA (VStr [120%N])].
+
+(* set() refused for an unknown keyword after its values passed validation leaves its snapshot behind, too *)
+Definition ops_kwrefused : list vop := [VCreate [(CA, VInt 1)]; VSetBad 1 [(CB, VStr [113%N])]].
+Lemma kwrefused_witness :
+  exists w, In w (vrun vinit ops_kwrefused) /\ w_out w = VExn XTypeError
+    /\ m_tbl (w_post w) = m_tbl (w_pre w)
+    /\ length (versions_of 1 (w_post w)) = S (length (versions_of 1 (w_pre w)))
+    /\ map v_vals (versions_of 1 (w_post w)) ++ [[(CA, VInt 1); (CB, VNull); (CC, VInt 7)]] <> hist_of 1 (w_post w).
+Proof. eexists. split; [right; left; reflexivity|]. repeat split. vm_compute. discriminate. Qed.
